@@ -110,6 +110,39 @@ def execute(run: Run, lab: Lab, histories, corr, tag, rng=None):
                          what=d[1])
 
 
+def nested_oracle(run: Run):
+    """fresh interpreter: (a) no mutable object nested anywhere inside the per-atom data is shared between the
+    public table and a fully initialised private table (in-place mutation through one table would change the
+    other); (b) formulas / mixtures built with table=T contain only atoms of T"""
+    import json as _json
+    import os
+    import subprocess
+    import sys
+    from ..common import REPO, VERIF
+    env = dict(os.environ, PYTHONPATH=str(VERIF / "harness"), PYTHONDONTWRITEBYTECODE="1")
+    try:
+        p = subprocess.run([sys.executable, "-m", "ptv.state_nested", str(REPO)], capture_output=True, text=True,
+                           timeout=600, env=env)
+    except subprocess.TimeoutExpired:
+        raise InfraError("nested-sharing oracle timed out")
+    if p.returncode != 0:
+        run.violation("building and reading a fully initialised private table raised: %s" % p.stderr.strip()[-300:],
+                      dict(oracle="nested"), kind="private-table-raises")
+        return
+    res = _json.loads(p.stdout.strip().splitlines()[-1])
+    run.count(key="nested-oracle", nontrivial=True, tag="nested-oracle",
+              sample="nested mutable objects per table: %d" % res["objects"])
+    for s in res["shared"]:
+        # the one class-level Neutron() placeholder is the recorded finding D20
+        attr = "neutron" if s.split(" == ")[0].endswith(".neutron") and s.split(" == ")[1].endswith(".neutron") else "nested"
+        run.violation("a mutable object is shared between the public and a private table: %s" % s,
+                      dict(oracle="nested", shared=s),
+                      kind="public-differs-after-class-default-mutation" if attr == "neutron" else "shared-nested-object",
+                      attr=attr)
+    for s in res["foreign"]:
+        run.violation(s, dict(oracle="nested", what=s), kind="foreign-atom")
+
+
 def run(run: Run) -> int:
     import_repo()
     run.prove(generated=["LazyConfig"])
@@ -135,6 +168,7 @@ def run(run: Run) -> int:
         for lo in range(0, n, 1000):
             execute(run, lab, [random_history(lab, run.rng) for _ in range(lo, min(n, lo + 1000))],
                     "iso-random", "random", run.rng)
+        nested_oracle(run)
     finally:
         lab.close()
     return run.finish(RULE, assumptions=[
